@@ -4,4 +4,9 @@ UNITS = {
     "GenRegions": dict(
         props=["C12"],
         dumper="dump_c12.py", args=[]),
+    # How the pairs reach the wire: shape of MachineController.flood_fill_aplx / _send_ffcs / the re-load loop of
+    # load_application and the enum values used, from the source text (tools/dump_c12f.py, fail closed).
+    "GenRegionsFill": dict(
+        props=["C12"],
+        dumper="dump_c12f.py", args=[]),
 }
